@@ -289,7 +289,7 @@ pub fn c06(ctx: &mut Ctx) -> (u64, String) {
     ctx.assume("state identity of Ps2Decoder = derived PartialEq over all fields (hook H3); the two-/three-frame stream trees and the clear sweep need no hook");
     // (A) closed BFS of real decoder x shadow frame
     let sys = Arc::new(FrameSys::new());
-    let (g, sr, errs) = explore_both(sys.clone(), true);
+    let (g, sr, errs) = explore_both(sys.clone(), true, 400_000);
     for e in errs {
         ctx.machinery(&format!("frame bfs: {}", e));
     }
@@ -302,7 +302,7 @@ pub fn c06(ctx: &mut Ctx) -> (u64, String) {
     let mut reset_edges = 0u64;
     let mut by_identity = 0u64;
     let mut cache: std::collections::HashMap<usize, Option<Vec<usize>>> = std::collections::HashMap::new();
-    for s in 0..g.states.len() {
+    for s in 0..g.expanded {
         for ai in 0..3 {
             let t = g.succ[s][ai] as usize;
             let (_, _, tc) = &g.states[t];
@@ -360,53 +360,50 @@ pub fn c06(ctx: &mut Ctx) -> (u64, String) {
     // (B) hook-free: all bit streams of 2 (quick) / 3 (thorough) frames, outputs only
     let frames = if ctx.thorough() { 3 } else { 2 };
     let total_bits = frames * 11;
-    // split on the first 8 bits
-    let results = par_chunks(256, |chunk| {
-        let mut n = 0u64;
-        let mut bads: Vec<(Vec<bool>, String, String)> = vec![];
-        let res = catch_unwind(AssertUnwindSafe(|| {
-            let mut d = Ps2Decoder::new();
-            let mut path = vec![];
-            let mut word = 0u16;
-            let mut ok_prefix = true;
-            for i in 0..8 {
-                let b = (chunk >> i) & 1 != 0;
-                let r = d.add_bit(b);
-                n += 1;
-                word |= (b as u16) << i;
+    type TB = (Vec<bool>, String, String);
+    /// `forced`: bits this level must take (the chunk prefix); guard: per-call catch_unwind
+    fn rec(d: &Ps2Decoder, word: u16, cnt: usize, pos: usize, total: usize, forced: &[bool], guard: bool, path: &mut Vec<bool>, n: &mut u64, bads: &mut Vec<TB>) {
+        let choices: &[bool] = if pos < forced.len() { &forced[pos..pos + 1] } else { &[false, true] };
+        for &b in choices {
+            let mut d2 = d.clone();
+            let r: Result<Result<Option<u8>, Error>, ()> = if guard { catch_unwind(AssertUnwindSafe(|| d2.add_bit(b))).map_err(|_| ()) } else { Ok(d2.add_bit(b)) };
+            *n += 1;
+            let w = word | ((b as u16) << cnt);
+            let (want, nw, nc) = if cnt + 1 < 11 { (Ok(None), w, cnt + 1) } else { (r_frame(w).map(Some), 0, 0) };
+            if r != Ok(want) && bads.len() < 32 {
+                let mut p = path.clone();
+                p.push(b);
+                bads.push((p, fmt_optbyte(&want), match &r { Ok(x) => fmt_optbyte(x), Err(_) => "PANIC".into() }));
+            }
+            if r.is_err() {
+                continue;
+            }
+            if pos + 1 < total {
                 path.push(b);
-                if r != Ok(None) {
-                    ok_prefix = false;
-                    bads.push((path.clone(), "Ok(None)".into(), fmt_optbyte(&r)));
-                }
+                rec(&d2, nw, nc, pos + 1, total, forced, guard, path, n, bads);
+                path.pop();
             }
-            let _ = ok_prefix;
-            fn rec(d: &Ps2Decoder, word: u16, cnt: usize, pos: usize, total: usize, path: &mut Vec<bool>, n: &mut u64, bads: &mut Vec<(Vec<bool>, String, String)>) {
-                for b in [false, true] {
-                    let mut d2 = d.clone();
-                    let r = d2.add_bit(b);
-                    *n += 1;
-                    let w = word | ((b as u16) << cnt);
-                    let (want, nw, nc) = if cnt + 1 < 11 { (Ok(None), w, cnt + 1) } else { (r_frame(w).map(Some), 0, 0) };
-                    if r != want && bads.len() < 32 {
-                        let mut p = path.clone();
-                        p.push(b);
-                        bads.push((p, fmt_optbyte(&want), fmt_optbyte(&r)));
-                    }
-                    if pos + 1 < total {
-                        path.push(b);
-                        rec(&d2, nw, nc, pos + 1, total, path, n, bads);
-                        path.pop();
-                    }
-                }
-            }
-            rec(&d, word, 8, 8, total_bits, &mut path, &mut n, &mut bads);
-        }));
-        (n, bads, res.is_err())
+        }
+    }
+    let results = par_chunks(256, |chunk| {
+        let forced: Vec<bool> = (0..8).map(|i| (chunk >> i) & 1 != 0).collect();
+        let run = |guard: bool| {
+            let mut n = 0u64;
+            let mut bads: Vec<TB> = vec![];
+            let mut path = vec![];
+            rec(&Ps2Decoder::new(), 0, 0, 0, total_bits, &forced, guard, &mut path, &mut n, &mut bads);
+            (n, bads)
+        };
+        match catch_unwind(AssertUnwindSafe(|| run(false))) {
+            Ok(r) => (r, false),
+            Err(_) => (run(true), true),
+        }
     });
     let mut total = 0u64;
-    for (n, bads, panicked) in results {
+    let mut slow = 0;
+    for ((n, bads), was_slow) in results {
         total += n;
+        slow += was_slow as u32;
         for (path, want, got) in bads {
             let k = path.len();
             let fr = (k - 1) / 11;
@@ -419,39 +416,56 @@ pub fn c06(ctx: &mut Ctx) -> (u64, String) {
                 Replay::one("ps2", path.iter().map(|b| Op::Bit(*b)).collect(), &want, Some(got)),
             );
         }
-        if panicked {
-            ctx.note("a bit-stream chunk panicked (located precisely by the BFS part)");
-        }
     }
     ctx.evaluations += total;
     ctx.traces_validated += total;
-    ctx.part("tree:bit-streams", json!({"engine": "B stream tree (hook-free)", "frames_per_stream": frames, "bits_per_stream": total_bits, "bit_positions_checked": total, "streams": (1u64 << total_bits)}));
+    ctx.part("tree:bit-streams", json!({"engine": "B stream tree (hook-free)", "frames_per_stream": frames, "bits_per_stream": total_bits, "bit_positions_checked": total, "streams": (1u64 << total_bits), "chunks_rerun_with_panic_guards": slow}));
 
     // (C) hook-free: clear() from every partial prefix, then every one of the 2048 frames
     let results = par_chunks(11, |len| {
         let mut n = 0u64;
         let mut bads = vec![];
         for prefix in 0..(1u16 << len) {
-            let mut d = Ps2Decoder::new();
-            for i in 0..len {
-                let _ = d.add_bit((prefix >> i) & 1 != 0);
-            }
-            d.clear();
+            let prep = catch_unwind(AssertUnwindSafe(|| {
+                let mut d = Ps2Decoder::new();
+                for i in 0..len {
+                    let _ = d.add_bit((prefix >> i) & 1 != 0);
+                }
+                d.clear();
+                d
+            }));
+            let Ok(d) = prep else {
+                if bads.len() < 16 {
+                    bads.push((len, prefix, 0u16, "no panic".to_string()));
+                }
+                continue;
+            };
             for w in 0..2048u16 {
                 let mut d2 = d.clone();
-                let mut last = Ok(None);
-                let mut early = false;
-                for k in 0..11 {
-                    last = d2.add_bit((w >> k) & 1 != 0);
-                    n += 1;
-                    if k < 10 && last != Ok(None) {
-                        early = true;
-                        break;
-                    }
-                }
                 let want = r_frame(w).map(Some);
-                if (early || last != want) && bads.len() < 16 {
-                    bads.push((len, prefix, w, fmt_optbyte(&want), fmt_optbyte(&last)));
+                let res = catch_unwind(AssertUnwindSafe(|| {
+                    let mut last = Ok(None);
+                    for k in 0..11 {
+                        last = d2.add_bit((w >> k) & 1 != 0);
+                        if k < 10 && last != Ok(None) {
+                            return (last, true, k + 1);
+                        }
+                    }
+                    (last, false, 11)
+                }));
+                match res {
+                    Ok((last, early, steps)) => {
+                        n += steps as u64;
+                        if (early || last != want) && bads.len() < 16 {
+                            bads.push((len, prefix, w, fmt_optbyte(&want)));
+                        }
+                    }
+                    Err(_) => {
+                        n += 1;
+                        if bads.len() < 16 {
+                            bads.push((len, prefix, w, fmt_optbyte(&want)));
+                        }
+                    }
                 }
             }
         }
@@ -460,7 +474,7 @@ pub fn c06(ctx: &mut Ctx) -> (u64, String) {
     let mut total = 0u64;
     for (n, bads) in results {
         total += n;
-        for (len, prefix, w, want, got) in bads {
+        for (len, prefix, w, want) in bads {
             let mut ops: Vec<Op> = (0..len).map(|i| Op::Bit((prefix >> i) & 1 != 0)).collect();
             ops.push(Op::Clear);
             ops.extend(word_ops_bits(w));
@@ -469,7 +483,6 @@ pub fn c06(ctx: &mut Ctx) -> (u64, String) {
             let upto = t.iter().enumerate().skip(len + 1).find(|(i, s)| (*i < len + 11 && *s != "Ok(None)") || *i == len + 11).map(|(i, _)| i + 1).unwrap_or(ops.len());
             ops.truncate(upto);
             let obs = t[upto - 1].clone();
-            let _ = got;
             ctx.violation(
                 &format!("ps2/after-clear/{}bits:{:0w$b}/frame:0x{:03X}", len, prefix, w, w = len),
                 &format!("{} bits of a partial frame, then clear(), then frame 0x{:03X} bit by bit: must end in {} but gives {}", len, w, want, obs),
